@@ -391,3 +391,119 @@ func dslParse(args []string) error {
 func isAssignable(u *openfgav1.Userset) bool {
 	return utilsIsRelationAssignable(u)
 }
+
+// ---- listener traces (Impl binding of the parser): one trace per relation declaration ----
+
+type lstEvent struct {
+	Ev    string   `json:"ev"`
+	Args  []string `json:"args"`
+	Nrw   int      `json:"nrw"`
+	Op    string   `json:"op"`
+	Depth int      `json:"depth"`
+}
+
+type lstTrace struct {
+	ID     string     `json:"id"`
+	Events []lstEvent `json:"events"`
+	Result *AbsTree   `json:"result"`
+}
+
+func init() {
+	commands["listener-record"] = listenerRecord
+}
+
+// treeWithNil renders a possibly missing rewrite the way the specification names it
+func treeOrNil(t *AbsTree) *AbsTree {
+	if t == nil || t.K == "none" {
+		return &AbsTree{K: "nil"}
+	}
+	return t
+}
+
+func listenerRecord(args []string) error {
+	fs := flag.NewFlagSet("listener-record", flag.ExitOnError)
+	in := fs.String("in", "", "input ndjson {id, text}")
+	out := fs.String("out", "", "output ndjson: one trace per relation declaration of every accepted document")
+	fs.Parse(args)
+	w, err := newNDWriter(*out)
+	if err != nil {
+		return err
+	}
+	defer w.close()
+	return readNDJSON(*in, func(line []byte) error {
+		var inp dslParseIn
+		if err := json.Unmarshal(line, &inp); err != nil {
+			return err
+		}
+		var traces []*lstTrace
+		var cur *lstTrace
+		transformer.VerifListenerTrace = func(ev string, a []string, nrw int, op string, depth int) {
+			if ev == "EnterRelDecl" {
+				cur = &lstTrace{Events: []lstEvent{}}
+				traces = append(traces, cur)
+			}
+			if cur == nil {
+				return
+			}
+			if a == nil {
+				a = []string{}
+			}
+			cur.Events = append(cur.Events, lstEvent{Ev: ev, Args: append([]string{}, a...), Nrw: nrw, Op: op, Depth: depth})
+		}
+		res, model := parseDSL(inp.Text, inp.Modular)
+		transformer.VerifListenerTrace = nil
+		if !res.OK || model == nil {
+			return nil
+		}
+		// relation declarations are walked in document order; the stored trees are matched by that order through the names
+		// the document was written with: the harness only knows the final map, so each trace carries the tree stored under
+		// the name of its declaration - recovered from the order of relations in the document text
+		k := 0
+		for _, td := range model.GetTypeDefinitions() {
+			names := relationOrder(inp.Text, td.GetType(), len(td.GetRelations()))
+			for _, n := range names {
+				if k >= len(traces) {
+					break
+				}
+				traces[k].ID = fmt.Sprintf("%s/%s#%s", inp.ID, td.GetType(), n)
+				traces[k].Result = treeOrNil(absRw(td.GetRelations()[n]))
+				k++
+			}
+		}
+		if k != len(traces) {
+			return nil // declaration order could not be recovered (duplicate type names): no trace for this document
+		}
+		for _, t := range traces {
+			if err := w.write(t); err != nil {
+				return err
+			}
+		}
+		return nil
+	})
+}
+
+var defineRe = regexp.MustCompile(`(?m)^[ \t]*define[ \t]+([^\s:]+)`)
+var typeLineRe = regexp.MustCompile(`(?m)^[ \t]*(?:extend[ \t]+)?type[ \t]+(\S+)`)
+
+// relationOrder returns the relation names of the given type in the order they are declared in the text
+func relationOrder(text, typeName string, want int) []string {
+	text = strings.ReplaceAll(text, "\r", "")
+	locs := typeLineRe.FindAllStringSubmatchIndex(text, -1)
+	for i, loc := range locs {
+		if text[loc[2]:loc[3]] != typeName {
+			continue
+		}
+		end := len(text)
+		if i+1 < len(locs) {
+			end = locs[i+1][0]
+		}
+		var names []string
+		for _, m := range defineRe.FindAllStringSubmatch(text[loc[1]:end], -1) {
+			names = append(names, m[1])
+		}
+		if len(names) == want {
+			return names
+		}
+	}
+	return nil
+}
